@@ -416,6 +416,10 @@ class Gen1:
             return [p + rng.choice(["return", "stop", "return $x"])]
         if r < 0.97:
             return [p + "pass"]
+        if r < 0.985:
+            # flow meta data written wherever the author happens to put it (also inside nested blocks)
+            self.facts["meta"] = self.facts.get("meta", 0) + 1
+            return [p + rng.choice(["priority %d" % rng.randint(1, 3), 'meta {"k%d": %d}' % (self.uniq(), rng.randint(0, 1)), "priority 0.5"])]
         return [p + "bot b%d" % self.uniq()]
 
     def program(self, maxdepth):
